@@ -19,7 +19,10 @@ CHECKS["C11"] = {
             "plus global bijection/order relations; calcCrc and escape round trip on all raw strings of length<=2 over "
             "all bytes and length<=6 (thorough 8, and length 3 over all bytes) over {00,01,A8,A9,AA,AB,FF}; "
             "parseHexEscaped on all escaped strings of length<=2 over all bytes, all length-3 strings containing A9/AA "
-            "(thorough: all length-3), and length<=6/8 over the alphabet. distinct = distinct inputs.",
+            "(thorough: all length-3), and length<=6/8 over the alphabet; parsing APPENDS ('parse ... and add all symbols'): "
+            "every stored prefix of length<=2 (thorough 3) over the alphabet, also holding unescaped A9/AA symbols, x every string "
+            "of length<=3 (thorough 4), escaped and plain hex, master and slave strings -> prefix + parsed symbols, same "
+            "acceptance as on a fresh string, calcCrc of the result. distinct = distinct inputs.",
     "assumptions": ["reference CRC is bitwise division by x^8+x^7+x^4+x^3+x+1, init 0, over the escaped sequence; "
                     "induction over the per-symbol fold extends the 65536-step result to every length"],
     "runs": [{
